@@ -269,3 +269,238 @@ def c16_instr(rng):
                     out.append(('%s c=now%+d ethr=%d' % (opn, dc, ethr), script, {}, cfg,
                                 ('raise' if not expe else 'empty') if ver else expe))
     return out
+
+
+# ---------------------------------------------------------------- C04: merklized scripts
+LEAF_BODIES = ['true', 'false', 'true verify true', 'push d1 push d1 equal', 'true return false',
+               'push d2 push d3 less', 'true true', 'false not']
+REC = b'c3'      # recording contract (kind 'none'): INVOKE logs its argument
+
+
+def leaf_src(i, body):
+    # first instruction(s): invoke the recording contract with the leaf's marker
+    return 'push x%02x push d1 push x%s invoke %s' % (i, REC.hex(), body)
+
+
+def rand_tree(rng, leaves):
+    """random binary tree shape over ScriptLeaf objects (classes used directly)"""
+    nodes = list(leaves)
+    while len(nodes) > 1:
+        i = rng.randrange(len(nodes) - 1)
+        a, b = nodes[i], nodes[i + 1]
+        nodes[i:i + 2] = [T.ScriptNode(a, b)]
+    return nodes[0]
+
+
+def leaves_of(node):
+    if isinstance(node, T.ScriptLeaf):
+        return [node]
+    return leaves_of(node.left) + leaves_of(node.right)
+
+
+def c04(rng):
+    out = []
+    cfg = tsh.Cfg(contracts=((REC, 'none'),))
+    n = rng.randint(1, 7)
+    bodies = [rng.choice(LEAF_BODIES) for _ in range(n)]
+    srcs = [leaf_src(i, b) for i, b in enumerate(bodies)]
+    own = [F.run_auth_scripts([Script.from_src(s).bytes], {}, cfg.contract_objs(tsh.Log())) for s in srcs]
+    kind = rng.choice(['prioritized', 'balanced', 'classes'])
+    if kind == 'prioritized':
+        lock, unlocks = T.make_merklized_script_prioritized(list(srcs))
+        tree = T.make_script_tree_prioritized(list(srcs))
+    elif kind == 'balanced':
+        Pins.ridx = 1000
+        lock, unlocks = T.make_merklized_script_balanced(list(srcs))
+        Pins.ridx = 1000
+        tree = T.make_script_tree_balanced(list(srcs))
+    else:
+        if n == 1:
+            srcs.append(leaf_src(1, 'false')); bodies.append('false'); own.append(False); n = 2
+        lv = [T.ScriptLeaf.from_src(s) for s in srcs]
+        tree = rand_tree(rng, lv)
+        lock = tree.locking_script()
+        unlocks = [l.unlocking_script() for l in lv]
+    for i, u in enumerate(unlocks[:len(bodies)]):
+        exp_log = 'v%s:%02x' % (REC.hex(), i)
+        out.append(('%s n=%d leaf=%d body=%r' % (kind, n, i, bodies[i]), [bs(u), bs(lock)], {}, cfg, own[i], None, exp_log))
+    # corruptions: nothing of the supplied script may start
+    i = rng.randrange(len(unlocks))
+    u = bytearray(bs(unlocks[i]))
+    j = rng.randrange(len(u))
+    u2 = bytearray(u); u2[j] ^= 1 << rng.randrange(8)
+    out.append(('%s corrupted-unlock-byte@%d' % (kind, j), [bytes(u2), bs(lock)], {}, cfg, None, None, 'maybe'))
+    foreign = Script.from_src(leaf_src(99 % 256, 'true'))
+    sib = hashlib.sha256(b'x').digest()
+    out.append(('%s foreign-leaf' % kind, [bs(Script.from_src('push x%s push x%s' % (sib.hex(), foreign.bytes.hex()))), bs(lock)], {}, cfg, False, None, ''))
+    # serialisation round trip (direct)
+    packed = tree.pack()
+    t2 = T.ScriptNode.unpack(packed)
+    ok = t2.root() == tree.root() and [bs(l.unlocking_script()) for l in leaves_of(t2)] == [bs(l.unlocking_script()) for l in leaves_of(tree)]
+    out.append(('%s pack/unpack n=%d' % (kind, n), None, None, None, ok))
+    return out
+
+
+# ---------------------------------------------------------------- C05: taproot
+def ed_add(a, b): return nb.crypto_core_ed25519_add(a, b)
+
+
+def c05(rng):
+    out = []
+    cfg = tsh.Cfg(contracts=((REC, 'none'),))
+    a, b = rng.sample(range(len(SEEDS)), 2)
+    sf = fields(rng)
+    body = rng.choice(LEAF_BODIES)
+    S = Script.from_src(leaf_src(7, body))
+    own = F.run_auth_scripts([S.bytes], {}, cfg.contract_objs(tsh.Log()))
+    fl = rng.choice([0, 0, 1 << (int(rng.choice(list(sf))[-1]) - 1)])
+    flh = '%02x' % fl
+    P = PUBS[a]
+    for native in (True, False):
+        lock_f = T.make_taproot_lock if native else T.make_nonnative_taproot_lock
+        nm = 'taproot' if native else 'nonnative'
+        lock = lock_f(P, S, sigflags=flh)
+        if native:
+            # root formula: P + clamp(sha256(P || sha256(S))) * G
+            t = F.clamp_scalar(hashlib.sha256(P + hashlib.sha256(S.bytes).digest()).digest())
+            root = ed_add(P, nb.crypto_scalarmult_ed25519_base_noclamp(t))
+            ok = bs(lock) == bytes([3, 32]) + root + bytes([F.opcodes_inverse['OP_TAPROOT'][0], fl])
+            out.append(('taproot root formula', None, None, None, ok))
+        wk = T.make_taproot_witness_keyspend(SEEDS[a], sf, S, sigflags=flh)
+        out.append((nm + ':keyspend', [bs(wk), bs(lock)], sf, cfg, True, None, ''))
+        out.append((nm + ':keyspend-other-key', [bs(T.make_taproot_witness_keyspend(SEEDS[b], sf, S, sigflags=flh)), bs(lock)], sf, cfg, False, None, ''))
+        pf = perturb_fields(rng, sf, fl)
+        if pf:
+            out.append((nm + ':keyspend-covered-field-changed', [bs(wk), bs(lock)], pf, cfg, False, None, ''))
+        ws = T.make_taproot_witness_scriptspend(P, S)
+        out.append((nm + ':scriptspend body=%r' % body, [bs(ws), bs(lock)], sf, cfg, own, None, 'v%s:07' % REC.hex()))
+        S2 = Script.from_src(leaf_src(8, 'true'))
+        out.append((nm + ':scriptspend-other-script', [bs(T.make_taproot_witness_scriptspend(P, S2)), bs(lock)], sf, cfg, False, None, ''))
+        out.append((nm + ':scriptspend-other-key', [bs(T.make_taproot_witness_scriptspend(PUBS[b], S)), bs(lock)], sf, cfg, False, None, ''))
+        if bad_flag := next((f for f in (1, 2, 4) if f & ~fl), None):
+            out.append((nm + ':keyspend-flag-not-permitted', [bs(T.make_taproot_witness_keyspend(SEEDS[a], sf, S, sigflags='%02x' % bad_flag)), bs(lock)], sf, cfg, False, None, ''))
+    return out
+
+
+# ---------------------------------------------------------------- C17: adapter signatures
+L_ORDER = 2**252 + 27742317777372353535851937790883648493
+
+
+def c17(rng):
+    out = []
+    cfg = tsh.Cfg()
+    a, b = rng.sample(range(len(SEEDS)), 2)
+    seed, X = SEEDS[a], PUBS[a]
+    sf = fields(rng)
+    tw = bytes(rng.getrandbits(8) for _ in range(32))
+    t = F.clamp_scalar(tw)
+    Tp = F.derive_point_from_scalar(t)
+    m = b''.join(sf[k] for k in sorted(sf))
+    # instruction level through run_script (direct facts computed with PyNaCl)
+    _, st, _ = F.run_script(gpush(seed) + gpush(m) + gpush(Tp) + bytes([F.opcodes_inverse['OP_MAKE_ADAPTER_SIG_PUBLIC'][0]]))
+    sa, R = st.get(), st.get()
+
+    def chk(sa_, R_, m_, T_, X_):
+        try:
+            _, s, _ = F.run_script(gpush(sa_) + gpush(R_) + gpush(m_) + gpush(T_) + gpush(X_) + bytes([F.opcodes_inverse['OP_CHECK_ADAPTER_SIG'][0]]))
+            return s.get() == b'\xff'
+        except BaseException:
+            return False
+    facts = [('adapter passes its check', chk(sa, R, m, Tp, X))]
+    flip = lambda x: bytes([x[0] ^ 1]) + x[1:]
+    sa2 = nb.crypto_core_ed25519_scalar_add(sa, (1).to_bytes(32, 'little'))
+    facts.append(('altered sa fails', not chk(sa2, R, m, Tp, X)))
+    facts.append(('altered R fails', not chk(sa, PUBS[b], m, Tp, X)))
+    facts.append(('altered T fails', not chk(sa, R, m, PUBS[b], X)))
+    facts.append(('altered message fails', not chk(sa, R, m + b'!', Tp, X)))
+    facts.append(('altered key fails', not chk(sa, R, m, Tp, PUBS[b])))
+    _, st, _ = F.run_script(gpush(sa) + gpush(R) + gpush(tw) + bytes([F.opcodes_inverse['OP_DECRYPT_ADAPTER_SIG'][0]]))
+    s, RT = st.get(), st.get()
+
+    def valid(sig, msg, key):
+        try:
+            tsh.VerifyKey(key).verify(msg, sig); return True
+        except BaseException:
+            return False
+    facts.append(('decrypted (R+T, sa+t) verifies under X', valid(RT + s, m, X)))
+    facts.append(('R+T and sa+t as stated', RT == ed_add(R, Tp) and s == nb.crypto_core_ed25519_scalar_add(sa, t)))
+    facts.append(('t recovered as s - sa', nb.crypto_core_ed25519_scalar_sub(s, sa) == nb.crypto_core_ed25519_scalar_reduce(t + bytes(32))))
+    facts.append(('adapter itself is not a signature', not valid(R + sa, m, X)))
+    t2 = F.clamp_scalar(bytes(rng.getrandbits(8) for _ in range(32)))
+    _, st, _ = F.run_script(gpush(sa) + gpush(R) + gpush(t2) + bytes([F.opcodes_inverse['OP_DECRYPT_ADAPTER_SIG'][0]]))
+    s2, RT2 = st.get(), st.get()
+    facts.append(('decryption with another scalar is not a signature', not valid(RT2 + s2, m, X)))
+    for nm, ok in facts:
+        out.append(('adapter-op: ' + nm, None, None, None, ok))
+    # builders end to end (correspondence + expectation)
+    l1, l2, l3 = T.make_adapter_locks_prv(X, tw)
+    w = T.make_adapter_witness(seed, Tp, sf)
+    out.append(('adapter-locks: witness passes verify lock', [bs(w), bs(l1)], sf, cfg, True))
+    out.append(('adapter-locks: other signer fails', [bs(T.make_adapter_witness(SEEDS[b], Tp, sf)), bs(l1)], sf, cfg, False))
+    pf = perturb_fields(rng, sf)
+    out.append(('adapter-locks: changed field fails', [bs(w), bs(l1)], pf, cfg, False))
+    out.append(('adapter-locks: decrypt + concat + check_sig', [bs(w), bs(l2), bytes([F.opcodes_inverse['OP_CONCAT'][0]]), bs(l3)], sf, cfg, True))
+    out.append(('adapter-locks: wrong tweak then check_sig', [bs(w), bs(T.make_adapter_decrypt(bytes(rng.getrandbits(8) for _ in range(32)))), bytes([F.opcodes_inverse['OP_CONCAT'][0]]), bs(l3)], sf, cfg, False))
+    dec = T.decrypt_adapter(w, tw)
+    out.append(('decrypt_adapter == RT||s', None, None, None, dec == RT + s if sf else True))
+    out.append(('adapter-locks: decrypted sig unlocks', [gpush(dec), bs(l3)], sf, cfg, True))
+    # deprecated single-script lock
+    lk = T.make_adapter_lock_prv(X, tw)
+    out.append(('adapter-lock(single): honest', [gpush(tw) + bs(w), bs(lk)], sf, cfg, True))
+    # known finding D15: the PRIVATE variant
+    _, st, _ = F.run_script(gpush(m) + gpush(tw) + gpush(seed) + bytes([F.opcodes_inverse['OP_MAKE_ADAPTER_SIG_PRIVATE'][0]]))
+    sap, Rp, Tq = st.get(), st.get(), st.get()
+    out.append(('adapter-op: PRIVATE variant passes its check', None, None, None, chk(sap, Rp, m, Tq, X), 'D15'))
+    return out
+
+
+def gpush(v):
+    if len(v) == 1:
+        return bytes([2]) + v
+    if len(v) < 256:
+        return bytes([3, len(v)]) + v
+    return bytes([4]) + len(v).to_bytes(2, 'big') + v
+
+
+# ---------------------------------------------------------------- C18: AMHL
+def c18(rng):
+    out = []
+    cfg = tsh.Cfg()
+    n = rng.randint(2, 6)
+    ids = rng.sample(range(len(SEEDS)), n)
+    pubs = [PUBS[i] for i in ids]
+    prvs = [SEEDS[i] for i in ids]
+    seed = bytes(rng.getrandbits(8) for _ in range(rng.randint(1, 32)))
+    am = T.setup_amhl(seed, pubs)
+    setup = _AM.AMHL.setup(n, seed)
+    ys, Ys = setup
+    G = nb.crypto_scalarmult_ed25519_base_noclamp
+    # tweak point of hop i = sum of the points of secrets 0..i
+    acc = None
+    ok = True
+    for i in range(n):
+        p = G(ys[i])
+        acc = p if acc is None else ed_add(acc, p)
+        ok = ok and Ys[i] == acc and am[pubs[i]][2] == acc
+    out.append(('amhl: tweak points are prefix sums', None, None, None, ok))
+    ok = all(_AM.AMHL.check_setup(_AM.AMHL.setup_for(setup, i), i, n) for i in range(n + 1))
+    out.append(('amhl: every view passes check_setup', None, None, None, ok))
+    out.append(('amhl: final key opens last lock', None, None, None, _AM.AMHL.verify_lock_key(Ys[-1], am['key'])))
+    sfs = [fields(rng) for _ in range(n)]
+    wits = [T.make_adapter_witness(prvs[i], am[pubs[i]][2], sfs[i]) for i in range(n)]
+    for i in range(n):
+        out.append(('amhl: adapter witness %d passes its lock' % i, [bs(wits[i]), bs(am[pubs[i]][0])], sfs[i], cfg, True))
+    # cascade right to left
+    k = am['key']
+    sig = None
+    for i in range(n - 1, -1, -1):
+        if sig is not None:
+            k = T.release_left_amhl_lock(wits[i + 1].bytes, sig, am[pubs[i + 1]][3])
+        sig = T.decrypt_adapter(wits[i].bytes, k)
+        out.append(('amhl: hop %d unlocks with released scalar' % i, [gpush(sig), bs(am[pubs[i]][1])], sfs[i], cfg, True))
+        # scalar of another hop does not
+        j = rng.choice([x for x in range(n) if x != i])
+        other = _AM.AMHL.scalar_sum(*ys[:j + 1])
+        bad = T.decrypt_adapter(wits[i].bytes, other)
+        out.append(('amhl: hop %d with scalar of hop %d' % (i, j), [gpush(bad), bs(am[pubs[i]][1])], sfs[i], cfg, False))
+    return out
